@@ -101,3 +101,18 @@ def raw_remote_values_are_refused_or_wire_valid(rv, v):
     assert len(q) == 1 and wire_valid(q[0].payload.value)
     p = q[0].payload.value
     assert isinstance(p, DPTBinary) if rv.payload_length == 0 else len(p.value) == rv.payload_length
+
+
+from xknx.dpt import DPTAngle, DPTScaling  # noqa: E402
+
+
+@lemma("C11", family=[dict(T=DPTScaling), dict(T=DPTAngle)], params=dict(v=Float(lo=-1000.0, hi=1000.0)), float_mode="real")
+def scaled_transcoders_are_refused_or_wire_valid(T, v):
+    """DPT 5.001 / 5.003 (value_type 'percent' / 'angle' of the helpers, RemoteValueNumeric and the MCP
+    tool), any real value - in particular the non-integers just outside the range: ConversionError or one
+    octet 0..255."""
+    try:
+        p = T.to_knx(v)
+    except ConversionError:
+        return
+    assert wire_valid(p) and len(p.value) == 1
